@@ -266,7 +266,10 @@ def cli_routes(ctx, work, sets):
                 (["--structure-style", "single-package", "--compound-fields"], {"CompoundFields": "true", "structure": "single-package"},
                  {"structure_style": "single-package", "compound_fields.enabled": True}),
                 (["--structure-style", "clusters", "--docstring-style", "Google"], {"structure": "clusters", "docstring": "Google"},
-                 {"structure_style": "clusters", "docstring_style": "Google"})):
+                 {"structure_style": "clusters", "docstring_style": "Google"}),
+                # a pair of options that CONFLICT (order needs eq): every route has to resolve the conflict the same way
+                (["--structure-style", "single-package", "--order", "--no-eq"], {"structure": "single-package", "format": {"order": "true", "eq": "false"}},
+                 {"structure_style": "single-package", "format.order": True, "format.eq": False})):
             outs = {}
             spath = os.path.join(work, "apispec.json")
             json.dump({"files": files, "main": main, "options": api_opts, "repeat": 1, "pkg": "clipkg"}, open(spath, "w"))
@@ -292,6 +295,8 @@ def cli_routes(ctx, work, sets):
                     txt = re.sub(r"<Structure>[^<]*</Structure>", f"<Structure>{cfg_edit['structure']}</Structure>", txt)
                     if "CompoundFields" in cfg_edit:
                         txt = re.sub(r"<CompoundFields([^>]*)>false</CompoundFields>", r"<CompoundFields\1>true</CompoundFields>", txt)
+                    for attr, val in (cfg_edit.get("format") or {}).items():
+                        txt = re.sub(r'(<Format\b[^>]*\b%s=")[^"]*(")' % attr, r"\g<1>%s\g<2>" % val, txt)
                     if "docstring" in cfg_edit:
                         txt = re.sub(r"<DocstringStyle>[^<]*</DocstringStyle>", f"<DocstringStyle>{cfg_edit['docstring']}</DocstringStyle>", txt)
                     # the file written by init-config also carries DEFAULT substitutions (e.g. class names ending in
